@@ -454,6 +454,9 @@ pub fn native_method(ctx: &Ctx, recv: &V, name: &str, args: Vec<V>, line: u32) -
             "call" => ctx.fiber_call(f, args, line),
             "has_finished" => {
                 want(ctx, &args, 0, line)?;
+                if f.state.get() == FiberSt::Limbo {
+                    return Err(Ctl::Discard("fiber left inside a call chain by an aborted run"));
+                }
                 Ok(V::Bool(f.state.get() == FiberSt::Done))
             }
             _ => Err(Ctl::Discard("native method not on this receiver (Fiber)")),
